@@ -7,12 +7,15 @@
 //!           accessors `iter_nodes`, `max_depth`, `num_leaves`, `features`
 //!   pred  : `predict` on the training records and on a grid of probe points
 //!   imp   : `feature_importance`, `mean_impurity_decrease`
+//! Record layouts (`inp.lay`): the same logical matrix is handed to `fit` / `predict` as a standard owned array, an
+//! F-order owned array, the transposed view of a features x samples matrix, reversed-row / reversed-feature views
+//! (stride -1) or every-second-row / -column views over a larger buffer; the strides the library saw are logged.
 //! Encodings: thresholds as exact integers 2*t, decreases as round(v*1e6) plus f64 order keys,
 //! labels as the case's small integers (mapped to usize / bool / String and back).
 use linfa::prelude::*;
 use linfa::Float;
 use linfa_trees::{DecisionTree, SplitQuality, TreeNode};
-use ndarray::{Array1, Array2};
+use ndarray::{s, Array1, Array2, ArrayBase, Data, Ix2, ShapeBuilder};
 use std::sync::Mutex;
 use vh::serde_json::{json, Value};
 use vh::*;
@@ -69,22 +72,77 @@ fn walk<F: Float, L: linfa::Label + std::fmt::Debug>(
     }
 }
 
+/// The storage behind one layout of a logical matrix: (backing buffer, is the buffer itself the matrix?).
+fn backing<F: Float>(logical: &Array2<F>, lay: &str) -> Array2<F> {
+    let (n, d) = logical.dim();
+    let filler = |i: usize, j: usize| F::cast(-57.0 + (3 * i + 5 * j) as f64); // never a lattice value of the case
+    match lay {
+        "std" => logical.clone(),
+        "forder" => {
+            let mut v = Vec::with_capacity(n * d);
+            for j in 0..d {
+                for i in 0..n {
+                    v.push(logical[(i, j)]);
+                }
+            }
+            Array2::from_shape_vec((n, d).f(), v).expect("f-order array")
+        }
+        "tview" => Array2::from_shape_fn((d, n), |(j, i)| logical[(i, j)]),
+        "revrows" => Array2::from_shape_fn((n, d), |(i, j)| logical[(n - 1 - i, j)]),
+        "revcols" => Array2::from_shape_fn((n, d), |(i, j)| logical[(i, d - 1 - j)]),
+        "everyrow2" => Array2::from_shape_fn((2 * n, d), |(i, j)| if i % 2 == 0 { logical[(i / 2, j)] } else { filler(i, j) }),
+        "everycol2" => Array2::from_shape_fn((n, 2 * d), |(i, j)| if j % 2 == 0 { logical[(i, j / 2)] } else { filler(i, j) }),
+        other => panic!("unknown layout {}", other),
+    }
+}
+
 fn go<F: Float, L: linfa::Label + Default + std::fmt::Debug>(
     inp: &Value,
     to_l: &dyn Fn(i64) -> L,
     from_l: &dyn Fn(&L) -> i64,
 ) -> Vec<Value> {
     let x = imat(&inp["x"]);
-    let y = ivec(&inp["y"]);
-    let w4 = ivec(&inp["w4"]);
     let n = x.len();
     let d = geti(inp, "d") as usize;
     let sc = &inp["scale"];
     let (off, mul, pm, plo, phi) = (geti(sc, "off"), geti(sc, "mul"), geti(sc, "pm"), geti(sc, "plo"), geti(sc, "phi"));
     let conv = |v: i64| F::cast((off + mul * v) as f64);
     let records = Array2::from_shape_fn((n, d), |(i, j)| conv(x[i][j]));
+    // the probe grid (lexicographic, first coordinate slowest)
+    let np = (phi - plo + 1).max(0) as usize;
+    let total = np.pow(d as u32);
+    let probes = Array2::from_shape_fn((total, d), |(r, j)| {
+        let digit = (r / np.pow((d - 1 - j) as u32)) % np;
+        F::cast((2 * off + pm * (plo + digit as i64)) as f64 / 2.0)
+    });
+    let lay = inp.get("lay").and_then(|l| l.as_str()).unwrap_or("std").to_string();
+    let (rb, pb) = (backing(&records, &lay), backing(&probes, &lay));
+    match lay.as_str() {
+        // owned arrays (standard and column-major)
+        "std" | "forder" => observe::<F, L, _, _>(inp, &lay, rb, pb, to_l, from_l),
+        "tview" => observe::<F, L, _, _>(inp, &lay, rb.t(), pb.t(), to_l, from_l),
+        "revrows" => observe::<F, L, _, _>(inp, &lay, rb.slice(s![..;-1, ..]), pb.slice(s![..;-1, ..]), to_l, from_l),
+        "revcols" => observe::<F, L, _, _>(inp, &lay, rb.slice(s![.., ..;-1]), pb.slice(s![.., ..;-1]), to_l, from_l),
+        "everyrow2" => observe::<F, L, _, _>(inp, &lay, rb.slice(s![..;2, ..]), pb.slice(s![..;2, ..]), to_l, from_l),
+        "everycol2" => observe::<F, L, _, _>(inp, &lay, rb.slice(s![.., ..;2]), pb.slice(s![.., ..;2]), to_l, from_l),
+        other => panic!("unknown layout {}", other),
+    }
+}
+
+fn observe<F: Float, L: linfa::Label + Default + std::fmt::Debug, D: Data<Elem = F>, D2: Data<Elem = F>>(
+    inp: &Value,
+    lay: &str,
+    records: ArrayBase<D, Ix2>,
+    probes: ArrayBase<D2, Ix2>,
+    to_l: &dyn Fn(i64) -> L,
+    from_l: &dyn Fn(&L) -> i64,
+) -> Vec<Value> {
+    let y = ivec(&inp["y"]);
+    let w4 = ivec(&inp["w4"]);
+    let strides: Vec<i64> = records.strides().iter().map(|s| *s as i64).collect();
+    let pstrides: Vec<i64> = probes.strides().iter().map(|s| *s as i64).collect();
     let targets: Array1<L> = Array1::from_iter(y.iter().map(|l| to_l(*l)));
-    let mut ds = Dataset::new(records.clone(), targets);
+    let mut ds = DatasetBase::new(records, targets);
     if !w4.is_empty() {
         ds = ds.with_weights(Array1::from_iter(w4.iter().map(|q| *q as f32 / 4.0)));
     }
@@ -126,12 +184,12 @@ fn go<F: Float, L: linfa::Label + Default + std::fmt::Debug>(
             return ev;
         }
         Ok(Err(e)) => {
-            ev.push(json!({"ev": "fit", "ok": false, "err": e.to_string(), "hook": hook, "fitnodes": fitnodes, "midk": midk}));
+            ev.push(json!({"ev": "fit", "ok": false, "err": e.to_string(), "hook": hook, "fitnodes": fitnodes, "midk": midk, "lay": lay, "strides": strides}));
             return ev;
         }
         Ok(Ok(t)) => t,
     };
-    ev.push(json!({"ev": "fit", "ok": true, "err": "", "hook": hook, "fitnodes": fitnodes, "midk": midk}));
+    ev.push(json!({"ev": "fit", "ok": true, "err": "", "hook": hook, "fitnodes": fitnodes, "midk": midk, "lay": lay, "strides": strides}));
 
     // structure through root_node / children, and the summarising accessors
     let mut nodes = vec![];
@@ -151,20 +209,14 @@ fn go<F: Float, L: linfa::Label + Default + std::fmt::Debug>(
     ev.push(json!({"ev": "tree", "nodes": nodes, "iter": iter, "maxdepth": tree.max_depth(),
                    "nleaves": tree.num_leaves(), "features": feats}));
 
-    // predictions: training records, then the probe grid (lexicographic, first coordinate slowest)
-    match guarded(|| tree.predict(&records)) {
+    // predictions: training records (as stored in the dataset), then the probe grid, both in the case's layout
+    match guarded(|| tree.predict(ds.records())) {
         Ok(p) => {
             let train: Vec<i64> = p.iter().map(|l| from_l(l)).collect();
-            let np = (phi - plo + 1).max(0) as usize;
-            let total = np.pow(d as u32);
-            let probes = Array2::from_shape_fn((total, d), |(r, j)| {
-                let digit = (r / np.pow((d - 1 - j) as u32)) % np;
-                F::cast((2 * off + pm * (plo + digit as i64)) as f64 / 2.0)
-            });
             match guarded(|| tree.predict(&probes)) {
                 Ok(pp) => {
                     let probe: Vec<i64> = pp.iter().map(|l| from_l(l)).collect();
-                    ev.push(json!({"ev": "pred", "train": train, "probe": probe}));
+                    ev.push(json!({"ev": "pred", "train": train, "probe": probe, "pstrides": pstrides}));
                 }
                 Err(msg) => ev.push(panic_event("predict-probe", &msg)),
             }
